@@ -29,6 +29,11 @@ def sweep(ctx, n):
             nps = np.random.default_rng(rng.randrange(2**31))
             cls = CLASSES[i % len(CLASSES)]
             src = make(cls, nps)
+            if cls == "CylinderSegment" and (i // len(CLASSES)) % 2 == 0:
+                # every other segment: an angular range that starts below -180 degrees (valid: [-360, 360])
+                r1_, r2_, h_ = src.dimension[:3]
+                a_ = float(nps.uniform(-350, -190))
+                src = make(cls, nps, dimension=(r1_, r2_, h_, a_, a_ + float(nps.uniform(40, min(300, 355 - a_)))))
             outside, inside = observers(cls, src, rng, nps)
             pos, ori = nps.uniform(-2, 2, 3), R.random(rng=nps)
             src.position, src.orientation = pos, ori
